@@ -59,6 +59,7 @@ func main() {
 	out := flag.String("out", "", "output directory")
 	shim := flag.String("shim", "/verif/shim", "directory holding vsync/ vrt/ vtime/ sources")
 	noSync := flag.Bool("nosync", false, "do not rewrite the sync import (free-running race pass)")
+	withHooks := flag.Bool("hooks", false, "add shim/vuegohooks (cache reset functions for the C09 harness) to package vuego")
 	flag.Parse()
 	if *out == "" {
 		fatal("need -out")
@@ -171,7 +172,7 @@ func main() {
 	}
 	// extra file for package vuego (root package of the module): cache reset hooks for harnesses.
 	// It goes through the same sync rewrite as the package's own files when needed.
-	if hooks := filepath.Join(*shim, "vuegohooks", "zverif_hooks.go.src"); fileExists(hooks) {
+	if hooks := filepath.Join(*shim, "vuegohooks", "zverif_hooks.go.src"); *withHooks && fileExists(hooks) {
 		overlay[filepath.Join(*repo, "zverif_hooks.go")] = hooks
 	}
 	ov, _ := json.MarshalIndent(map[string]any{"Replace": overlay}, "", " ")
